@@ -314,8 +314,34 @@ def run(prog, rep, tier, repo):
             bb = cps[0].bb
             upd = {s.target[2] for s in f.stores() if tag(s.target) == 'local' and s.target[2] in ('jtj', 'res', 'jtr', 'jacobian') and f.cfg.dominates(bb, s.bb)}
             ok = upd == {'jtj', 'res', 'jtr', 'jacobian'}
-            (rep.ok if ok else rep.viol)('lm', key, 'J, J^T J, J^T r and r are recomputed whenever a proposal is accepted' if ok else
-                                         'only %s are refreshed after accepting a proposal: the returned covariance is not at the returned point' % sorted(upd), site_of(f.body))
+            # .. and on every way out of the accepting iteration: a path from the acceptance to the next iteration or out of the loop that
+            # skips one of the refreshes leaves that quantity at the previous iterate
+            skipped = []
+            if ok:
+                cfg = f.cfg
+                loop = None
+                for h, blocks in cfg.loops().items():
+                    if bb in blocks and (loop is None or len(blocks) < len(loop[1])):
+                        loop = (h, blocks)
+                for nm in ('jtj', 'res', 'jtr', 'jacobian'):
+                    ub = {s.bb for s in f.stores() if tag(s.target) == 'local' and s.target[2] == nm and cfg.dominates(bb, s.bb)}
+                    if bb in ub:
+                        continue
+                    reach = cfg.reach_from(bb, avoid=ub)
+                    if loop is not None:
+                        h, blocks = loop
+                        leaves = any((v not in blocks or v == h) and not cfg.only_panics_from(v) for u in reach if u in blocks for v in cfg.succ[u])
+                    else:
+                        leaves = any(r in reach for r in cfg.returns)
+                    if leaves:
+                        skipped.append(nm)
+            if skipped:
+                rep.viol('lm', key, 'after a proposal is accepted %s %s not refreshed on every path to the next iteration / the exit (an early exit sits '
+                         'between the acceptance and the refresh): the returned covariance mixes the new point with quantities of the previous one' % (
+                             ', '.join(skipped), 'is' if len(skipped) == 1 else 'are'), site_of(f.body))
+            else:
+                (rep.ok if ok else rep.viol)('lm', key, 'J, J^T J, J^T r and r are recomputed whenever a proposal is accepted' if ok else
+                                             'only %s are refreshed after accepting a proposal: the returned covariance is not at the returned point' % sorted(upd), site_of(f.body))
     rep.floor('lm', 3, 'acceptance, covariance, state coherence')
     return {}
 
